@@ -25,6 +25,11 @@ def correspondence(ctx):
     for i in range(120 if ctx.quick() else 3000):
         kind, x = datagen.gen(rng, 200000 if i % 6 == 0 else 20000)
         p = frames.param_vector(rng, True, allow_fmt=False)
+        if i % 8 == 3:
+            # sub-block frames (ZSTD_c_targetCBlockSize): tiny literal sections whose compressed size, tree description included, may
+            # exceed the regenerated size; literal-heavy blocks with a handful of sequences
+            x = rng.choice([datagen.blockstruct, datagen.longlits, datagen.noisecopies])(rng, rng.choice([140000, 200000, 262144]))
+            p = {100: rng.choice([3, 16, 19]), 130: rng.choice([1340, 2000, 6000])} if rng.random() < 0.7 else {100: rng.choice([1, 5, 19])}
         lines.append("comp2 c2 %s %s" % (frames.pstr(p), frames.hx(x))); xs.append(x)
     frs = frames.parallel(lambda ch: frames.run_lines(plain, ch)[1], frames.split_chunks(lines, 16))
     cf = [bytes.fromhex(f) if f != "-" else b"" for f in frs if not f.startswith("err")]
